@@ -43,6 +43,15 @@ impl Judge {
         self.judge(&j)
     }
 
+    /// verdict of the harness's own reference validator alone (used to verify the shape of a known finding:
+    /// "nothing but this one field keeps the output from validating")
+    pub fn reference_says_valid(&self, text: &[u8]) -> bool {
+        match JParser::parse(text) {
+            Ok(j) => matches!(Validator::new(&self.schema).validate(&self.schema, &j), Verdict::Valid),
+            Err(_) => false,
+        }
+    }
+
     pub fn judge(&self, j: &J) -> Judgement {
         let mine = Validator::new(&self.schema).validate(&self.schema, j);
         let theirs: Option<bool> = match (&self.second, j.to_value()) {
